@@ -301,6 +301,20 @@ func fsmValidate(c *Ctx, rule string) {
 			}
 		}
 	}
+	// a method value (`filter.accept`) is a synthetic wrapper around the method: analyse the method,
+	// whose running "last applied" version is then a field of its receiver
+	isMethod := false
+	if val != nil && val.Synthetic != "" {
+		var under *ssa.Function
+		eachInstr(val, func(in ssa.Instruction) {
+			if cc := callCommon(in); cc != nil && cc.StaticCallee() != nil && len(cc.StaticCallee().Blocks) > 0 {
+				under = cc.StaticCallee()
+			}
+		})
+		if under != nil {
+			val, isMethod = under, true
+		}
+	}
 	name := funcName(fs) + ":validator"
 	if val == nil {
 		c.Fail(rule, name, fs.Pos(), "no batch validator (func(meta) (bool, error)) is built for the transfer")
@@ -315,7 +329,11 @@ func fsmValidate(c *Ctx, rule string) {
 			}
 			return "New", true
 		}
-		if t.Op == "cell" || t.Op == "param" && t.Fn == val.Parent() {
+		if isMethod && t.Op == "field" && t.Args[0].IsParam(val, 0) {
+			lastT = t.String()
+			return "last", true
+		}
+		if t.Op == "cell" || t.Op == "param" && val.Parent() != nil && t.Fn == val.Parent() {
 			// the running "last applied" cell: initialised from the outer parameter
 			if t.Has(func(x *Term) bool { return x.Op == "param" && x.Fn == val.Parent() }) {
 				lastT = t.String()
@@ -378,7 +396,11 @@ func fsmValidate(c *Ctx, rule string) {
 	adv := false
 	eachInstr(val, func(in ssa.Instruction) {
 		if st, ok := in.(*ssa.Store); ok {
-			if _, isFV := st.Addr.(*ssa.FreeVar); isFV {
+			_, isFV := st.Addr.(*ssa.FreeVar)
+			if fa, isFA := st.Addr.(*ssa.FieldAddr); isFA && isMethod && p.TermOf(fa.X).IsParam(val, 0) {
+				isFV = true
+			}
+			if isFV {
 				v := p.TermOf(st.Val)
 				if v.Op == "field" && v.Name == "NewVersion" {
 					adv = true
